@@ -96,7 +96,7 @@ def mismatched(answer, variant):
 
 def defective(text, typ, variant):
     head, secs = split_sections(text)
-    v = variant % (4 if typ == "answer" else 3)
+    v = variant % (5 if typ == "answer" else 3)
     rtp = [i for i, s in enumerate(secs) if s[0].startswith(("m=audio", "m=video"))]
     if v == 2 and not rtp:
         v = 0
@@ -106,8 +106,10 @@ def defective(text, typ, variant):
         secs = [[l for l in s if not l.startswith("a=ice-pwd:")] for s in secs]
     elif v == 2:
         secs = [[l for l in s if l != "a=rtcp-mux"] if i in rtp else s for i, s in enumerate(secs)]
-    else:
+    elif v == 3:
         secs = [[("a=setup:actpass" if l.startswith("a=setup:") else l) for l in s] for s in secs]
+    else:
+        secs = [[l for l in s if not l.startswith("a=setup:")] for s in secs]  # no DTLS role at all
     return join_sections(head, secs)
 
 
